@@ -85,3 +85,28 @@ Section Examples.
 End Examples.
 
 Print Assumptions C03_decoration_monitor_accepts_every_model_trace.
+
+(* ---- no nonce is ever used twice: step3f (Model/Monitors3.v) = step3a + the nonce of every request differs from the
+   nonce of every earlier request of the history ----
+   Nonces are draws from the environment's counter (the random generator is idealised: two draws never collide); what the
+   theorem shows is that the machine draws afresh for every request it puts on the wire - update check, each retry,
+   event report, ping - and never sends a drawn nonce twice. *)
+Require Import Verif.Proofs.C03fProof.
+Theorem C03_no_nonce_is_ever_used_twice :
+  forall ep cfg url cup apps e, e_trace e = [] ->
+    accepts step3f (init3f url cup) (run_case ep cfg url cup apps e) = true.
+Proof. exact model_accepted_c03f. Qed.
+Section Examples3f.
+  Let u : urlparts := {| u_valid := true; u_prefix := s2b "http://h"; u_path := s2b "/p"; u_query := None |}.
+  Let w (uri : bytes) : wire := {| w_uri := uri; w_headers := []; w_body := [];
+                                   w_sum := {| ws_source := ScheduledTask; ws_session := None; ws_request := None; ws_apps := [] |} |}.
+  Let n7 := s2b "0000000000000000000000000000000000000000000000000000000000000007".
+  Let n8 := s2b "0000000000000000000000000000000000000000000000000000000000000008".
+  Example C03_freshness_monitor :
+    accepts step3f (init3f u (Some 42)) [AHttp (w (s2b "http://h/p?cup2key=42:" ++ n7)) (HErr TTransport);
+                                         AHttp (w (s2b "http://h/p?cup2key=42:" ++ n7)) (HErr TTransport)] = false
+    /\ accepts step3f (init3f u (Some 42)) [AHttp (w (s2b "http://h/p?cup2key=42:" ++ n7)) (HErr TTransport);
+                                            AHttp (w (s2b "http://h/p?cup2key=42:" ++ n8)) (HErr TTransport)] = true.
+  Proof. vm_compute. split; reflexivity. Qed.
+End Examples3f.
+Print Assumptions C03_no_nonce_is_ever_used_twice.
